@@ -34,11 +34,16 @@ Fixpoint ident_run (l : list byte) : list byte * list byte :=
               else let '(a, r) := ident_run t in (b :: a, r)
   end.
 
+(* scanEndOfLine stops at the first rune that is not an end of line; a NUL there is read as end of
+   file and NOT put back: it is consumed *)
+Definition drop_nul (l : list byte) : list byte :=
+  match l with b :: t => if beqb b NUL then t else l | [] => [] end.
+
 Definition scan (l : list byte) : tok * list byte :=
   match l with
   | [] => (TEof, [])
   | b :: t =>
-      if is_eol b then (TEol, snd (span is_eol t))
+      if is_eol b then (TEol, drop_nul (snd (span is_eol t)))
       else if beqb b NUL then (TEof, t)
       else if beqb b GT then (TStart, t)
       else let '(a, r) := ident_run t in (TIdent (b :: a), r)
